@@ -54,6 +54,9 @@ func (rn *runner) optUnoptFunc(e vrt.Entry) {
 		if yields(exp) >= 1 && effects(exp) >= 2 || e.New == nil && effects(exp) >= 2 {
 			rn.nontrivial(e.Name, sc)
 		}
+		if len(rn.res.Samples) < sp.Samples && effects(exp) >= 2 {
+			rn.res.Samples = append(rn.res.Samples, map[string]any{"func": e.Name, "args": args, "ops": fmt.Sprint(sc.Threads[0]), "history_of_both_stages": exp.Strings()})
+		}
 		J := effects(exp)
 		nf := sp.MaxFault
 		if nf > J {
@@ -382,5 +385,25 @@ func (rn *runner) depthLadder(e vrt.Entry, k2 int) {
 	}
 	if len(rn.res.Samples) < rn.spec.Samples+4 {
 		rn.res.Samples = append(rn.res.Samples, map[string]any{"func": e.Name, "sizes": sizes, "max_depth_frames": depths})
+	}
+}
+
+// replaySolo re-evaluates the C14 oracle on a stored scenario (recorded thread choices).
+func (rn *runner) replaySolo(e vrt.Entry) {
+	sc := rn.spec.Replay
+	inter := Play(rn.impls["opt"], sc, PlayOpt{Fuel: Fuel})
+	rn.res.Scenarios++
+	for h := range sc.Iters {
+		solo := Play(rn.impls["opt"], soloOf(sc, h), PlayOpt{Fuel: Fuel})
+		got := projectHandle(inter.Hist, h)
+		want := projectHandle(solo.Hist, 0)
+		if at := hist.FirstDiff(want, got); at >= 0 {
+			rn.mismatch(e.Name, "solo", "opt-alone", "opt-interleaved", sc, want, got, at, fmt.Sprintf("solo(h%d): %s", h, classOf(want, got, at)))
+			return
+		}
+	}
+	ref := Play(rn.impls["ref"], sc, PlayOpt{Fuel: Fuel})
+	if at := hist.FirstDiff(ref.Hist, inter.Hist); at >= 0 && !ref.FuelOut {
+		rn.mismatch(e.Name, "refeq-interleaved", "ref", "opt", sc, ref.Hist, inter.Hist, at, "refeq-interleaved(ref vs opt): "+classOf(ref.Hist, inter.Hist, at))
 	}
 }
